@@ -154,6 +154,15 @@ func (ex *Exec) applyContract(fr *Frame, fn *ssa.Function, ct *Contract, args []
 		if rq.Label != "" {
 			name += "." + rq.Label
 		}
+		if strings.HasPrefix(rq.Label, "W-") {
+			// a well-formedness assumption about stored state / data (established by other functions): it is an
+			// assumption of the callee's proof, reported in the evidence, and not demanded from every caller
+			if ex.specMode == 0 {
+				ex.assumed[fmt.Sprintf("W: %s assumes [%s] of its inputs (not checked at call sites)", short, rq.Label)]++
+			}
+			st.Assume(c)
+			continue
+		}
 		ex.oblige(st, "pre", name, c, posOfCall(call))
 		st.Assume(c)
 	}
